@@ -7,7 +7,7 @@ PROPS: dict = {}
 
 A_H11 = "A-h11 (assumed, bounded audit): h11.Connection client-role contract - see contracts/ext_h11.py"
 A_H2 = "A-h2 (assumed, bounded audit): h2.connection.H2Connection contract - see contracts/ext_h2.py"
-A_NET = "A-runtime (assumed): network stream / backend interface contract, locks, shields, Trace - see contracts/common.py, ext_runtime.py"
+A_NET = "A-runtime (assumed): the runtime PRIMITIVES (trio / anyio / threading Event, Lock, Semaphore, CancelScope, sockets, fail_after) and sniffio; the network stream / backend interface used by the connection classes - see contracts/common.py, ext_runtime.py. The layer of /repo over them IS under contract: _synchronization.py and AutoBackend (contracts/m_sync.py), the three back ends (m_backends.py), Trace protocol methods, Response, request()/stream() (m_support.py). Still assumed in /repo itself: map_exceptions (8-line generator mirrored by a stub), Trace.trace/atrace (runs the caller hook), TLSinTLSStream, get_extra_info, httpcore._api.request/stream"
 A_SOCKS = "A-socksio (assumed): SOCKS5Connection negotiation contract - see contracts/m_socks_proxy.py"
 A_STD = "A-stdlib (assumed, bounded audit): urllib.parse decomposition contract, str.encode('ascii'), base64 - see contracts/m_models.py"
 A_IFACE = "interface abstraction: pool-level proofs use ghost observers of AsyncConnectionInterface; each class is proved against its own observer spec; the composition is a paper argument (DESIGN 2.4)"
@@ -45,7 +45,7 @@ prop(
     title="byte-exact delivery",
     explanation="plumbing obligations between network stream, h11/h2 and caller: every read result is fed to the parser exactly once and unmodified, EOF before a response head raises RemoteProtocolError, the head loop skips only non-101 1xx and returns the last event's fields, the body generator yields exactly the data of every Data event until EndOfMessage/PAUSED, wrappers yield exactly the inner chunks, Response() stores status/headers in order",
     trusted=[A_H11, A_H2, A_NET, A_SYNC],
-    not_decided=["segmentation independence and framing live inside h11/h2 (assumed; bounded differential audit)"],
+    not_decided=['h2 folds repeated cookie fields (RFC 7540 8.1.2.5) and h11 collapses a repeated identical Content-Length: inside the assumed library contracts (design_probes/w4_preexisting/C02_preexisting_1.py)', "segmentation independence and framing live inside h11/h2 (assumed; bounded differential audit)"],
     bounded=["audit/h11_contract.py, audit/h2_contract.py: segmentation independence of the parsers (bounded; thorough tier)"],
     audits=[AUD_H11, AUD_H2],
 )
@@ -54,7 +54,7 @@ prop(
     title="requests serialised faithfully",
     explanation="include_request_headers equals the default-header spec function (Host first iff absent, IP-literal bracketed, port iff not the default; Content-Length / Transfer-Encoding iff neither present); Request() applies the target extension only to the target; h11.Request gets exactly method/target/headers of the request; _send_event writes exactly h11's output once; one Data event per body chunk in order then exactly one EndOfMessage; a rejected head writes nothing; HTTP/2 header list and end_stream spec",
     trusted=[A_H11, A_H2, A_NET, A_SYNC],
-    not_decided=["the h11/h2 encoders themselves (assumed; bounded audit of the send() round trip)"],
+    not_decided=['a header block that h2 rejects while encoding leaves the HPACK encoder state changed (the assumed h2 contract "a raising call leaves the state unchanged" is false there): the next request on the connection is undecodable - reproduced (design_probes/w4_preexisting/C03_preexisting_1.py), not stated as an obligation', "the h11/h2 encoders themselves (assumed; bounded audit of the send() round trip)"],
     bounded=["audit/h11_contract.py, audit/h2_contract.py (thorough tier)"],
     audits=[AUD_H11, AUD_H2],
 )
@@ -75,6 +75,7 @@ prop(
     "C06",
     title="every opened stream is eventually closed",
     explanation="ownership obligations: every stream opened in a function is, on every exit path, returned, handed to a protocol connection, or closed; aclose of every class closes what it owns; the pool hands every removed, not-closed connection to _close_connections; pool.aclose empties the list into _close_connections",
+    not_decided=['pool.aclose() while a request is still connecting drops the connection object; the stream opened afterwards is owned by no pooled connection (the premise "no responses outstanding" does not hold at that aclose) - reproduced (design_probes/w4_preexisting/C06_preexisting_1.py), not stated as an obligation'],
     trusted=[A_NET, A_IFACE, A_SHIELD, A_SYNC, "A-runtime.5: which exceptions socket / ssl / anyio / trio operations raise and that fail_after cancels its body (the three real back ends are verified against the stream contract on top of these)"],
 )
 prop(
@@ -99,6 +100,7 @@ prop(
     "C14",
     title="at most once on the wire unless refused",
     explanation="ConnectionNotAvailable is originated only at the HTTP/1.1 gate with nothing written, by a connection marked failed before any I/O, at the HTTP/2 gates, and by the GOAWAY check for exactly the streams above last_stream_id (0 included) before any read; every other function only passes it on; a response body never raises it; WriteError while sending is swallowed only around the send and never re-raised; connect retries only wrap establishment; the pool loops only on ConnectionNotAvailable",
+    not_decided=['"earlier streams may finish" after GOAWAY: a stream at or below last_stream_id that needs another network read is failed with RemoteProtocolError (reported, never re-sent): the clause is a permission and is not claimed'],
     trusted=[A_H11, A_H2, A_NET, A_IFACE, A_SYNC],
     audits=[AUD_H2],
 )
@@ -115,12 +117,13 @@ prop(
     title="timeouts applied to the right operations",
     explanation="call-site preconditions: every connect/TLS start gets extensions.timeout.connect, every read .read, every write .write, the pool wait .pool; absent means None; pass-through wrappers forward their timeout argument; SOCKS negotiation gets one of the configured values; in the three back ends every blocking runtime call runs under settimeout / fail_after of exactly the given value (trio: inf for None) and a deadline becomes the *Timeout class",
     trusted=[A_NET, A_SYNC],
-    not_decided=["the instant at which PoolTimeout fires (runtime primitive, assumed)"],
+    not_decided=['on a shared HTTP/2 connection a request with a read timeout waits without limit for the read lock held by a request without one (design_probes/w4_preexisting/C16_preexisting_2.py): reproduced, not stated as an obligation', "the instant at which PoolTimeout fires (runtime primitive, assumed)"],
 )
 prop(
     "C17",
     title="upgrade / CONNECT hand-over loses no bytes",
     explanation="sequence postconditions on the real upgrade stream for all max_bytes and contents (result ++ leading' ++ net' == leading ++ net, leading data first without touching the network, failures consume nothing), pass-through of write/close/start_tls/extra-info, trailing data captured with the head event, wrapped iff 101 or 2xx-to-CONNECT, switched connections take the close branch",
+    not_decided=['AsyncHTTP11UpgradeStream.start_tls drops bytes that arrived with the response head (a peer that speaks before the ClientHello): design_probes/w4_preexisting/C17_preexisting_1.py, not stated as an obligation'],
     trusted=[A_H11, A_NET, A_SYNC],
     audits=[AUD_H11],
 )
@@ -152,7 +155,7 @@ prop(
     title="the synchronous pool is thread-safe",
     explanation="lock-discipline obligations on the sync tree (and the async twin): every mutation of the pool's request queue and connection list, every assignment pass, and the pool reset in close() happen while the pool's thread lock is held; waiting, sending and closing happen outside it; connection state transitions (HTTP/1.1 gate and _response_closed, connect/tunnel/SOCKS establishment state) are written under their own lock; assign_to_connection/wait_for_connection hand-off order; list.remove calls are proved not to raise ValueError given the lock discipline",
     trusted=[A_NET, A_IFACE, A_SYNC, "GIL: single bytecodes are atomic; preemption inside h11/h2/threading internals not modelled"],
-    not_decided=["interleavings between lock regions are not enumerated: the obligations are the guarded_by discipline plus per-region contracts, not a schedule exploration", "HTTP/2 state machine shared by threads without a common lock: not modelled"],
+    not_decided=['an HTTP/2 request waiting for a stream slot is registered in _events only after the semaphore: _response_closed of another thread turns the connection IDLE under it and the pool may evict it - reproduced (design_probes/w4_preexisting/C08_preexisting_1.py); same root cause as KF-h2-exit-between-gate-and-stream-registration, not stated as an obligation of its own', "interleavings between lock regions are not enumerated: the obligations are the guarded_by discipline plus per-region contracts, not a schedule exploration", "HTTP/2 state machine shared by threads without a common lock: not modelled"],
 )
 
 prop(
@@ -160,7 +163,7 @@ prop(
     title="HTTP/2 streams isolated, bounded, cannot wedge each other",
     explanation="events are queued only on the stream id they carry (dispatch loop walks h2's list completely, in order, unknown streams dropped) and are handed out FIFO per stream; a stream id is taken only after acquiring a slot, the stream starts with one slot until SETTINGS arrive, SETTINGS move permits by exactly the change of the limit (loop invariant), every registered stream releases its slot exactly once on every exit; no suspension between stream id allocation and HEADERS; wait-for obligations: no blocking call while holding the read lock, no network read while own events are queued; credit of dropped / abandoned DATA",
     trusted=[A_H2, A_NET, A_SHIELD, A_SYNC],
-    not_decided=["'every other stream runs to completion' as liveness: decided only as absence of wait-for edges under the read lock and of credit leaks"],
+    not_decided=['an HTTP/2 request waiting for a stream slot is invisible to _response_closed (IDLE while a request is admitted) - reproduced (design_probes/w4_preexisting/C12_preexisting_1.py), see C08', "'every other stream runs to completion' as liveness: decided only as absence of wait-for edges under the read lock and of credit leaks"],
     audits=[AUD_H2],
 )
 prop(
@@ -181,7 +184,7 @@ prop(
     explanation="twin obligation per function: sync f == erase_async(unasync(async f)) on ast normal forms, plus file level: same files, every sync line is the translated async line, same line count, same module-level statements (the script's own --check stops at the shorter file); hand-written async/sync method pairs inside one file (Response, ByteStream, mock backends) compared after the same erasure. Decided syntactically (no solver): a degenerate relational proof. Behavioural equality 'for every scenario' follows only up to the shared contracts: every other property's check discharges the same contract set on both trees (obligation ids carry [async]/[sync])",
     technique="contract-based deductive verification, degenerate case: relational twin obligation decided by ast normal-form equality (no solver); plus the shared contract set proved on both trees by the other checks",
     structural=[_S.twin_obligations],
-    trusted=["the unasync substitution table as read from scripts/unasync.py", "the paired primitives of _synchronization.py (AsyncLock/Lock, AsyncEvent/Event, AsyncSemaphore/Semaphore, shields) satisfy the same assumed primitive contract (A-runtime): not compared"],
+    trusted=["the unasync substitution table as read from scripts/unasync.py", "the paired primitives of _synchronization.py (AsyncLock/Lock, AsyncEvent/Event, AsyncSemaphore/Semaphore, shields) are not translations of each other: both are PROVED against the same primitive contract (contracts/m_sync.py), which is the stated correspondence"],
     not_decided=["behavioural equality beyond the strength of the shared contracts", "Trace.atrace vs Trace.trace (deliberately different coroutine checks)"],
 )
 for _p, _gens in {
